@@ -50,13 +50,23 @@ def fnnls_cholesky(
     w = ZTx - (ZTZ) @ d
     s_chol = np.zeros(n)
 
-    if P_initial.shape[0] != 0:
+    P_inorder = np.array([], dtype="int")
+
+    if P_initial.shape[0] != 0 and np.any(P):
         P_number = np.arange(len(P), dtype="int")
-        P_inorder = P_number[P_initial]
         s_chol[P] = lstsq((ZTZ)[P][:, P], (ZTx)[P])
-        d = s_chol.clip(min=0)
-    else:
-        P_inorder = np.array([], dtype="int")
+
+        if np.min(s_chol[P]) > tolerance:
+            # The initial guess of the passive set is feasible: start from its solution, with the gradient `w`
+            # evaluated at that solution.
+            P_inorder = P_number[P_initial]
+            d = s_chol.copy()
+            w = ZTx - (ZTZ) @ d
+        else:
+            # The least-squares solution on the guessed passive set has non-positive entries, so it is not a
+            # feasible starting point of the algorithm: discard the guess and start from the empty passive set.
+            P[:] = False
+            s_chol[:] = 0.0
 
     # P_inorder is similar as P. They are both used to select solutions in the passive set.
     # P_inorder saves the `indexes` of those passive solutions.
